@@ -109,6 +109,13 @@ impl<'a> TypeGenerator<'a> {
                         // We do not just want to override it, so we check if the two types are semantically similar (structure + generics).
                         // If not, return an error, if yes, just keep the first one.
                         let other_ty_id = e.get().0;
+                        #[cfg(feature = "verif-hooks")]
+                        crate::verif_hooks::emit(
+                            "gen:occupied",
+                            ty_id,
+                            other_ty_id,
+                            types_equal(ty_id, other_ty_id, self.type_registry) as u32,
+                        );
                         if !types_equal(ty_id, other_ty_id, self.type_registry) {
                             return Err(TypegenError::DuplicateTypePath(ty.ty.path.to_string()));
                         }
@@ -335,13 +342,33 @@ impl<'a> TypeGenerator<'a> {
             tp.concrete_type_id == id
                 && original_name.is_none_or(|original_name| tp.original_name == original_name)
         }) {
+            #[cfg(feature = "verif-hooks")]
+            crate::verif_hooks::emit("rtp:param-match", id, is_field as u32, 0);
             let type_path = TypePath::from_parameter(parent_type_param.clone());
             return Ok(type_path);
         }
 
         let mut ty = self.resolve_type(id)?;
+        #[cfg(feature = "verif-hooks")]
+        crate::verif_hooks::emit(
+            match &ty.type_def {
+                TypeDef::Composite(_) => "rtp:composite",
+                TypeDef::Variant(_) => "rtp:variant",
+                TypeDef::Sequence(_) => "rtp:sequence",
+                TypeDef::Array(_) => "rtp:array",
+                TypeDef::Tuple(_) => "rtp:tuple",
+                TypeDef::Primitive(_) => "rtp:primitive",
+                TypeDef::Compact(_) => "rtp:compact",
+                TypeDef::BitSequence(_) => "rtp:bitsequence",
+            },
+            id,
+            is_field as u32,
+            0,
+        );
 
         if ty.path.ident() == Some("Cow".to_string()) {
+            #[cfg(feature = "verif-hooks")]
+            crate::verif_hooks::emit("rtp:cow-unwrap", id, 0, 0);
             let inner_ty_id = ty.type_params[0]
                 .ty
                 .ok_or_else(|| {
@@ -464,8 +491,12 @@ impl<'a> TypeGenerator<'a> {
                 .substitutes
                 .for_path_with_params(&path.segments, params, self.settings)
         {
+            #[cfg(feature = "verif-hooks")]
+            crate::verif_hooks::emit("rtp:substituted", params.len() as u32, 0, 0);
             substitute
         } else {
+            #[cfg(feature = "verif-hooks")]
+            crate::verif_hooks::emit("rtp:not-substituted", params.len() as u32, 0, 0);
             TypePathType::from_type_def_path(
                 path,
                 self.settings.types_mod_ident.clone(),
